@@ -4,6 +4,23 @@ from . import csscheck
 THEOREMS = ["GE.C10.rpx_error_bound", "GE.C10.rpx_sign_kept"]
 
 
+def extra_cases(rng, quick):
+    """rpx values whose converted value lies within one ulp of an integer or of a half, for many ratios"""
+    out = []
+    ratios = [750, 375, 420, 53, 7, 33, 100, 1, 0.5, 3, 640, 1080, 414, 0.1, 49, 999]
+    for r in ratios:
+        vals = []
+        for k in (1, 2, 3, 5, 10, 17, 100, 0.5, 1.5, 2.5, 1000000):
+            v = k * r / 100.0
+            for txt in (repr(v), "%.6g" % v, "%.9g" % v, "-" + repr(v), "+" + repr(v)):
+                vals.append(txt)
+        o = {"class_prefix": None, "class_prefix_sign": None, "rpx_ratio": r, "import_sign": None, "convert_host": False, "host_is": None}
+        for i in range(0, len(vals), 11):
+            decls = ";".join("p%d:%srpx" % (j, v) for j, v in enumerate(vals[i:i + 11]))
+            out.append((o, ".a{" + decls + ";w:calc(" + vals[i] + "rpx + 1px)}"))
+    return out
+
+
 def run(chk):
     chk.rule = ("generated stylesheets with numeric tokens over the whole i32 range, decimals, exponents, signed zero, leading + and . x rpx "
                 "ratios; (1) model vs implementation including the Float32 conversion and the integer test; (2) oracle: |out-expected| <= "
@@ -15,7 +32,7 @@ def run(chk):
                        "that the implementation performs exactly these two operations is tied by the model's executable Float32 definition "
                        "(rpxConvert) agreeing bit-for-bit with the implementation on every generated number; PARTIAL: the decimal printing of "
                        "the f32 (6 significant digits) is outside the model and judged by the oracle"]
-    csscheck.run_property(chk, "C10", "GE.Thm.C10", THEOREMS, 700, 12000,
+    csscheck.run_property(chk, "C10", "GE.Thm.C10", THEOREMS, 700, 12000, extra_cases=extra_cases,
                           nontrivial=lambda o, css, res: "rpx" in css)
 
 
